@@ -144,7 +144,7 @@ func loadConfig(config string) (*Loaded, error) {
 	for _, p := range pkgs {
 		for _, f := range p.Syntax {
 			fname := prog.Fset.Position(f.Pos()).Filename
-			if !strings.Contains(filepath.Base(fname), "zz_verif_") {
+			if !strings.Contains(filepath.Base(fname), "zz_verif_") && p.PkgPath != verifPkgPath {
 				continue
 			}
 			for _, d := range f.Decls {
